@@ -127,6 +127,34 @@ func stackLinear(cfg Config, file string, runs, steps int) (int, error) {
 			return op("pop"), true
 		})
 	}
+	// bulk runs: grow far past the usual thresholds (256, 1024), empty completely, refill
+	bulk := 1500
+	if cfg.Tier == "thorough" {
+		bulk = 5000
+	}
+	for r := 0; r < 2; r++ {
+		s := &stackSys{hasN: hasN}
+		linked := r == 1
+		ls.Run(s, func(step int) (tt.Op, bool) {
+			switch {
+			case step == 0 && linked:
+				return op("newl", 7), true
+			case step == 0:
+				return op("news"), true
+			case step <= bulk:
+				return op("push", 1+(step*7)%50), true
+			case step <= bulk+bulk/2:
+				return op("pop"), true
+			case step <= bulk+bulk/2+20:
+				return op("push", 1+(step*3)%50), true
+			case step <= 2*bulk+60:
+				return op("pop"), true
+			case step <= 2*bulk+90:
+				return op("push", 1+step%50), true
+			}
+			return tt.Op{}, false
+		})
+	}
 	return ls.Close()
 }
 
@@ -150,8 +178,8 @@ func init() {
 			}
 			s.Files = append(s.Files, f)
 			s.Nodes += n
-			s.Leaves += runs
-			s.Extra["linear_runs"] = runs
+			s.Leaves += runs + 2
+			s.Extra["linear_runs"] = runs + 2
 			s.Extra["linear_nodes"] = n
 			return s, nil
 		},
